@@ -26,9 +26,16 @@ struct Cell {
     ch: u8,
     at: u8,
     pg: u8,
+    /// how the attribute byte `at` is STORED in the TextAttribute (the byte the cell displays as stays `at`):
+    /// bit 0: a set bit 3 is stored as colour 0..7 + BOLD flag (the way the ANSI parser stores high intensity) instead of colour 8..15;
+    /// bit 1: blink mode: a set bit 7 is stored as background 8..15 + blink flag instead of 0..7 + blink flag; ice mode: the blink
+    ///        flag (which ice mode ignores) is set in addition;
+    /// bit 2: the UNDERLINE flag, which XBin cannot store, is set.
+    #[serde(default)]
+    rp: u8,
 }
 
-const BLANK: Cell = Cell { ch: b' ', at: 0x07, pg: 0 };
+const BLANK: Cell = Cell { ch: b' ', at: 0x07, pg: 0, rp: 0 };
 
 struct Model {
     w: usize,
@@ -58,6 +65,20 @@ fn build(m: &Model) -> (Buffer, &'static str) {
         for x in 0..m.w {
             let c = m.cells[y * m.w + x];
             let mut a = TextAttribute::from_u8(c.at, buf.ice_mode);
+            if c.rp & 1 != 0 && c.at & 0x08 != 0 {
+                a.set_foreground((c.at & 0x07) as u32);
+                a.set_is_bold(true);
+            }
+            if c.rp & 2 != 0 {
+                if m.ice {
+                    a.set_is_blinking(true);
+                } else if c.at & 0x80 != 0 {
+                    a.set_background(((c.at >> 4) & 0x07) as u32 + 8);
+                }
+            }
+            if c.rp & 4 != 0 {
+                a.set_is_underlined(true);
+            }
             a.set_font_page(m.pages[(c.pg & 1) as usize]);
             buf.layers[0].set_char((x as i32, y as i32), AttributedChar::new(c.ch as char, a));
         }
@@ -601,7 +622,7 @@ fn assess(m: &Model, tolerate: bool, count: bool) -> Result<(Stats, usize), Fail
 
 /// A block of consecutive rows of one width: row number `first + k` (k in 0..n) is written in radix `radix` with `w`
 /// digits, digit x (least significant first) is the cell of column x. radix 18: digit = ch + 3*at + 9*pg over
-/// 3 characters x 3 attributes x 2 font pages; radix 4: digit = ch + 2*at over 2 characters x 2 attributes.
+/// 3 characters x 3 attributes x 2 font pages; radix 9: the same with page 0 only; radix 4: digit = ch + 2*at over 2 characters x 2 attributes.
 /// The block is saved as one buffer of height n (XBin compression is row by row); a failing row is re-checked alone.
 #[derive(Clone, Debug, Hash, Serialize, Deserialize)]
 struct RowBlock {
@@ -616,18 +637,32 @@ struct RowBlock {
     /// storage shape of the buffer the block is saved from (icyv::shape), 0 = as built
     #[serde(default)]
     shape: u8,
+    /// attribute representation variant of the block (see Cell::rp): 0 = every cell as from_u8 stores it; 1 = bit 3 as BOLD in
+    /// every cell; 2 = bit 3 as BOLD in the cells with odd (row index + column); 3 = bit 3 as BOLD in even
+    /// columns, blink flag (ignored by the ice mode the blocks use) in odd columns, UNDERLINE flag where (row index + column) is a multiple of 3
+    #[serde(default)]
+    rep: u8,
+}
+
+fn block_cell_rp(rep: u8, idx: u64, col: u64) -> u8 {
+    match rep % 4 {
+        0 => 0,
+        1 => 1,
+        2 => ((idx + col) & 1) as u8,
+        _ => (if col % 2 == 0 { 1 } else { 2 }) | if (idx + col) % 3 == 0 { 4 } else { 0 },
+    }
 }
 
 const CH18: [u8; 3] = [b' ', b'A', b'B'];
 const AT18: [u8; 3] = [0x07, 0x0F, 0x17];
 const CH4: [u8; 2] = [b' ', b'A'];
-const AT4: [u8; 2] = [0x07, 0x1E];
+const AT4: [u8; 2] = [0x07, 0x0F];
 
 fn digit_cell(radix: u8, d: u64) -> Cell {
-    if radix == 18 {
-        Cell { ch: CH18[(d % 3) as usize], at: AT18[((d / 3) % 3) as usize], pg: (d / 9) as u8 }
+    if radix == 18 || radix == 9 {
+        Cell { ch: CH18[(d % 3) as usize], at: AT18[((d / 3) % 3) as usize], pg: ((d / 9) % 2) as u8, rp: 0 }
     } else {
-        Cell { ch: CH4[(d % 2) as usize], at: AT4[((d / 2) % 2) as usize], pg: 0 }
+        Cell { ch: CH4[(d % 2) as usize], at: AT4[((d / 2) % 2) as usize], pg: 0, rp: 0 }
     }
 }
 
@@ -666,19 +701,26 @@ fn make_block(radix: u8, table: &[(u64, u64)], i: u64, tol: bool) -> RowBlock {
     // 60 % of the blocks as built, the rest cycling through the seven storage shapes
     let r = i % 10;
     let shape = if r < 6 { 0 } else { 1 + (((i / 10) * 4 + (r - 6)) % 7) as u8 };
-    RowBlock { radix, w: wi as u8 + 1, first, n: (rows - first).min(BLOCK) as u32, tol, shape }
+    // half of the blocks with every attribute as from_u8 stores it, the rest cycling through the representation variants
+    let q = i / 2;
+    let rep = if i % 2 == 0 { 0 } else { 1 + (q % 3) as u8 };
+    RowBlock { radix, w: wi as u8 + 1, first, n: (rows - first).min(BLOCK) as u32, tol, shape, rep }
 }
 
 fn block_model(b: &RowBlock, first: u64, n: u32) -> Model {
     let mut cells = Vec::with_capacity(b.w as usize * n as usize);
     for k in 0..n as u64 {
-        cells.extend(decode_row(b.radix, b.w, first + k));
+        let mut row = decode_row(b.radix, b.w, first + k);
+        for (x, c) in row.iter_mut().enumerate() {
+            c.rp = block_cell_rp(b.rep, first + k, x as u64);
+        }
+        cells.extend(row);
     }
     Model { w: b.w as usize, h: n as usize, ice: true, sauce: false, pages: [0, 1], cells, shape: b.shape }
 }
 
 fn check_block(b: &RowBlock) -> Verdict {
-    if !(b.radix == 18 || b.radix == 4) || b.w == 0 || b.w > 12 || b.n == 0 || b.n > 4096 {
+    if !(b.radix == 18 || b.radix == 9 || b.radix == 4) || b.w == 0 || b.w > 12 || b.n == 0 || b.n > 4096 {
         return Verdict::discard("malformed block");
     }
     let rows = (b.radix as u64).pow(b.w as u32);
@@ -690,12 +732,18 @@ fn check_block(b: &RowBlock) -> Verdict {
     match res {
         Ok((st, tolerated)) => {
             let nt = st.row_nt.iter().any(|x| *x);
-            let base = if b.shape % icyv::shape::CODES == 0 { format!("w{}", b.w) } else { format!("shape:{}", st.shape) };
+            let base = if b.shape % icyv::shape::CODES != 0 {
+                format!("shape:{}", st.shape)
+            } else if b.rep % 4 != 0 {
+                format!("rep{}", b.rep % 4)
+            } else {
+                format!("w{}", b.w)
+            };
             Verdict::pass(nt, format!("{base}{}", if tolerated > 0 { "+known_font_page_rows" } else { "" }))
         }
         Err(f) => {
             if b.n == 1 {
-                let row = decode_row(b.radix, b.w, b.first);
+                let row = &m.cells;
                 return Verdict::fail(f.key, format!("{} | row cells: {}", f.msg, json!(row)));
             }
             // narrow to the single row, checked alone in a 1-row buffer
@@ -706,8 +754,8 @@ fn check_block(b: &RowBlock) -> Verdict {
             for idx in cand {
                 let m1 = block_model(b, idx, 1);
                 if let Err(f1) = assess(&m1, b.tol, false) {
-                    let single = RowBlock { radix: b.radix, w: b.w, first: idx, n: 1, tol: false, shape: b.shape };
-                    let row = decode_row(b.radix, b.w, idx);
+                    let single = RowBlock { radix: b.radix, w: b.w, first: idx, n: 1, tol: false, shape: b.shape, rep: b.rep };
+                    let row = &m1.cells;
                     return Verdict::fail(f1.key, format!("single-row case {} = cells {} : {}", json!(single), json!(row), f1.msg.replace("row 0 ", "")));
                 }
             }
@@ -723,7 +771,7 @@ fn check_block(b: &RowBlock) -> Verdict {
 /// A stretch of `len` cells. kind 0: all equal (ch,at,pg); 1: same character, attribute steps through the attribute
 /// alphabet; 2: same attribute, character steps through the character alphabet; 3: both step; 4: all equal but the
 /// font page alternates from cell to cell (only with two pages); 5: every cell an independent pseudo-random draw from the
-/// alphabets (with the full byte range: no runs at all).
+/// alphabets (with the full byte range: no runs at all); 6: all equal, the attribute stored alternately in its two representations.
 #[derive(Clone, Debug, Hash, Serialize, Deserialize)]
 struct Piece {
     kind: u8,
@@ -731,6 +779,9 @@ struct Piece {
     ch: u8,
     at: u8,
     pg: u8,
+    /// attribute representation of the piece's cells (Cell::rp bits); kind 5 draws it per cell, kind 6 alternates bit 0
+    #[serde(default)]
+    rp: u8,
 }
 
 #[derive(Clone, Debug, Hash, Serialize, Deserialize)]
@@ -755,6 +806,9 @@ struct Pic {
     /// storage shape (icyv::shape), 0 = as built
     #[serde(default)]
     shape: u8,
+    /// false: every piece's `rp` is ignored (all attributes stored the way from_u8 stores them)
+    #[serde(default)]
+    reps: bool,
 }
 
 fn idx(v: u8, len: usize) -> usize {
@@ -784,15 +838,17 @@ fn expand_row(p: &Pic, pieces: &[Piece]) -> Vec<Cell> {
             }
             // kind 5: every cell an independent pseudo-random draw (a fixed function of the piece and the position)
             let noise = (pc.ch as u32 * 0x0101 + pc.at as u32 * 0x1_0001 + i as u32 + 1).wrapping_mul(0x9E37_79B1).rotate_left(7).wrapping_mul(0x85EB_CA6B);
-            let (cs, as_, ps) = match pc.kind % 6 {
-                0 => (0, 0, 0),
-                1 => (0, i, 0),
-                2 => (i, 0, 0),
-                3 => (i, i, 0),
-                4 => (0, 0, i),
-                _ => ((noise >> 24) as usize, ((noise >> 14) & 0xFF) as usize, ((noise >> 5) & 1) as usize),
+            let (cs, as_, ps, rp) = match pc.kind % 7 {
+                0 => (0, 0, 0, pc.rp),
+                1 => (0, i, 0, pc.rp),
+                2 => (i, 0, 0, pc.rp),
+                3 => (i, i, 0, pc.rp),
+                4 => (0, 0, i, pc.rp),
+                5 => ((noise >> 24) as usize, ((noise >> 14) & 0xFF) as usize, ((noise >> 5) & 1) as usize, if pc.rp == 0 { 0 } else { (noise & 7) as u8 }),
+                // the same byte in every cell, stored alternately in the two representations
+                _ => (0, 0, 0, pc.rp ^ (i as u8 & 1)),
             };
-            out.push(Cell { ch: sym(&p.chars, pc.ch, cs), at: sym(&p.attrs, pc.at, as_), pg: ((pc.pg as usize + ps) % np) as u8 });
+            out.push(Cell { ch: sym(&p.chars, pc.ch, cs), at: sym(&p.attrs, pc.at, as_), pg: ((pc.pg as usize + ps) % np) as u8, rp: if p.reps { rp & 7 } else { 0 } });
         }
     };
     for pc in pieces {
@@ -837,19 +893,20 @@ fn pic_strategy(tol: bool) -> BoxedStrategy<Pic> {
         2 => 6u8..=40,
         2 => proptest::sample::select(vec![62u8, 63, 64, 65, 66, 126, 127, 128, 129, 130]),
     ];
-    let piece = (0u8..=5, len, any::<u8>(), any::<u8>(), 0u8..=1).prop_map(|(kind, len, ch, at, pg)| Piece { kind, len, ch, at, pg });
+    let rp = prop_oneof![5 => Just(0u8), 3 => Just(1u8), 4 => 0u8..=7];
+    let piece = (0u8..=6, len, any::<u8>(), any::<u8>(), 0u8..=1, rp).prop_map(|(kind, len, ch, at, pg, rp)| Piece { kind, len, ch, at, pg, rp });
     let rows = prop_oneof![
         3 => proptest::collection::vec(proptest::collection::vec(piece.clone(), 0..=12), 1..=3),
         1 => proptest::collection::vec(proptest::collection::vec(piece, 0..=10), 1..=30),
     ];
     let chb = prop_oneof![3 => proptest::sample::select(vec![0x20u8, 0x41, 0x42, 0xDB, 0x00, 0xFF]), 1 => any::<u8>()];
-    let atb = prop_oneof![3 => proptest::sample::select(vec![0x07u8, 0x0F, 0x17, 0x70, 0x87, 0xF8, 0x08]), 1 => any::<u8>()];
+    let atb = prop_oneof![3 => proptest::sample::select(vec![0x07u8, 0x0F, 0x17, 0x70, 0x87, 0xF8, 0x08, 0x03, 0x0B]), 1 => any::<u8>()];
     let chars = prop_oneof![2 => proptest::collection::vec(chb, 1..=3), 1 => Just(Vec::new())];
     let attrs = prop_oneof![2 => proptest::collection::vec(atb, 1..=3), 1 => Just(Vec::new())];
     let pages = proptest::sample::select(vec![(0u8, 1u8), (0, 1), (0, 2), (1, 0), (1, 3), (2, 1)]);
     let shape = prop_oneof![6 => Just(0u8), 4 => 1u8..icyv::shape::CODES];
-    (w, any::<bool>(), prop_oneof![3 => Just(false), 1 => Just(true)], 1u8..=2, pages, chars, attrs, 0u8..=2, rows, shape)
-        .prop_map(move |(w, ice, sauce, npages, pages, chars, attrs, fill, rows, shape)| Pic { w, ice, sauce, npages, pages, chars, attrs, fill, rows, tol, shape })
+    (w, any::<bool>(), prop_oneof![3 => Just(false), 1 => Just(true)], 1u8..=2, pages, chars, attrs, 0u8..=2, rows, shape, any::<bool>())
+        .prop_map(move |(w, ice, sauce, npages, pages, chars, attrs, fill, rows, shape, reps)| Pic { w, ice, sauce, npages, pages, chars, attrs, fill, rows, tol, shape, reps })
         .boxed()
 }
 
@@ -873,6 +930,11 @@ fn minimize_pic(p: &Pic) -> Vec<Pic> {
             let mut q = p.clone();
             q.rows[y].remove(k);
             out.push(q);
+            if p.rows[y][k].rp != 0 {
+                let mut q = p.clone();
+                q.rows[y][k].rp = 0;
+                out.push(q);
+            }
             if p.rows[y][k].len > 1 {
                 for len in [1, p.rows[y][k].len / 2, p.rows[y][k].len - 1] {
                     if len >= 1 && len < p.rows[y][k].len {
@@ -889,6 +951,9 @@ fn minimize_pic(p: &Pic) -> Vec<Pic> {
     }
     if p.shape != 0 {
         out.push(Pic { shape: 0, ..p.clone() });
+    }
+    if p.reps {
+        out.push(Pic { reps: false, ..p.clone() });
     }
     if p.fill != 1 {
         out.push(Pic { fill: 1, ..p.clone() });
@@ -909,13 +974,15 @@ fn check_pic(p: &Pic) -> Verdict {
                 _ => "mixed",
             };
             let nt = st.row_nt.iter().any(|x| *x);
+            // does any cell store its attribute byte in a non-default representation?
+            let reps = m.cells.iter().any(|c| (c.rp & 1 != 0 && c.at & 0x08 != 0) || (c.rp & 2 != 0 && (m.ice || c.at & 0x80 != 0)) || c.rp & 4 != 0);
             Verdict::pass(
                 nt,
                 if p.shape % icyv::shape::CODES == 0 {
                     format!(
                         "{alpha}/{}{}{}",
                         if st.mode512 { "512" } else { "single" },
-                        if st.max_run == 64 { "/run64" } else { "" },
+                        if reps { "/reps" } else { "" },
                         if tolerated > 0 { "+known_font_page_rows" } else { "" }
                     )
                 } else {
@@ -973,10 +1040,12 @@ fn main() {
     let tol = font_page_finding_open(&eng);
     eng.rule(&format!(
         "rows_3x3x2: every row of width 1..={max_w18} (quick 1..=6, thorough 1..=7) over 3 chars {{' ','A','B'}} x 3 attrs {{07,0F,17}} x 2 font pages, row index -> cells by mixed radix \
-         (digit = ch + 3*at + 9*pg, column 0 least significant); rows_2x2: every row of width 1..=10 over 2 chars x 2 attrs (radix 4). One case = a block of up to 512 \
+         (digit = ch + 3*at + 9*pg, column 0 least significant); rows_3x3: the one-page rows of the same alphabet (radix 9, width 1..=7), saved as single-font files (a rows_3x3x2 block is always a 512-character file); \
+         rows_2x2: every row of width 1..=10 over 2 chars x 2 attrs {{07,0F}} (radix 4). One case = a block of up to 512 \
          consecutive row indices of one width saved as one buffer (compression is per row); a failing row is re-checked alone in a 1-row buffer. \
          pictures: generated buffers width 1..=200 (forced 63,64,65,127,128,129) x height 1..=30, rows built from pieces (equal cells, same-char, same-attr, both-changing, page-alternating and random stretches, \
-         lengths 1..=130 incl. 62..66 and 126..130) over small alphabets (1..=3 chars/attrs) or the full byte range, 1 or 2 font pages in varying font slots, blink or ice mode, with/without SAUCE; 40 % of the pictures and of the row blocks are saved from a buffer whose storage shape was perturbed by icyv::shape::perturb (extra allocated lines, over-long rows, larger layer, \
+         lengths 1..=130 incl. 62..66 and 126..130) over small alphabets (1..=3 chars/attrs) or the full byte range, 1 or 2 font pages in varying font slots, blink or ice mode, with/without SAUCE; attribute REPRESENTATION per cell (half of the row blocks and most pictures use alternatives): bit 3 stored as colour 8..15 or as colour 0..7 + BOLD, bit 7 in blink mode as background 0..7 or 8..15 + blink flag, \
+         blink flag set under ice mode, UNDERLINE flag set (not storable) - mixed inside rows, incl. adjacent equal bytes in different representations and equal colour numbers with different BOLD (classes rep<n>, /reps); 40 % of the pictures and of the row blocks are saved from a buffer whose storage shape was perturbed by icyv::shape::perturb (extra allocated lines, over-long rows, larger layer, \
          different terminal size, combined) which leaves the picture inside the buffer rectangle unchanged (class shape:<name>; a failure that needs the shape carries |shape=<name> in its key). \
          Non-trivial: a case containing a row with a run of >= 3 equal cells or at least two runs of different type in its compressed form. Distinct by case hash (a block counts once; the row totals are printed as '[C06] rows:'). \
          Row-level handling of the known font-page finding: {}.",
@@ -998,8 +1067,13 @@ fn main() {
     eng.extra("known_font_page_rows_tolerated", json!(tol));
 
     eng.enumerated(PartCfg::new("rows_3x3x2", 0, 0).exhaustive(true), total18, move |i| make_block(18, &table18, i, tol), check_block);
+    // the one-page rows of the 3x3x2 alphabet on their own: inside a rows_3x3x2 block they are saved in 512-character mode
+    // (the block uses both pages), where attribute bit 3 is the font page and 07/0F encode alike
+    let (total9, table9) = block_table(9, 7);
+    eng.extra("rows_3x3_domain", json!({"max_width": 7, "rows": table9.iter().map(|t| t.1).sum::<u64>(), "blocks": total9}));
+    eng.enumerated(PartCfg::new("rows_3x3", 0, 0).exhaustive(true), total9, move |i| make_block(9, &table9, i, false), check_block);
     eng.enumerated(PartCfg::new("rows_2x2", 0, 0).exhaustive(true), total4, move |i| make_block(4, &table4, i, false), check_block);
-    eng.generated_min(PartCfg::new("pictures", 500_000, 6_000_000), move || pic_strategy(tol), check_pic, |_| "-".to_string(), minimize_pic);
+    eng.generated_min(PartCfg::new("pictures", 420_000, 6_000_000), move || pic_strategy(tol), check_pic, |_| "-".to_string(), minimize_pic);
 
     unsafe {
         libc::atexit(row_report);
